@@ -147,6 +147,17 @@ func (g *lsGen) c06Probe(k, typ string) {
 		}
 		return
 	}
+	// re-arming: a fresh value and/or deadline written around the old deadline must
+	// survive the old timer and the old lazy check (probed again at later instants)
+	if r.Bool(0.25) {
+		if typ == "string" && r.Bool(0.6) {
+			g.try(pick(r, [][]B{bs("set", k, "rearmed", "ex", "100"), bs("setex", k, "100", "rearmed"), bs("set", k, "rearmed", "px", "100000")}))
+		} else {
+			g.try(bs("expire", k, "100"))
+		}
+		g.try(bs("exists", k))
+		return
+	}
 	// writes must start from an empty key once it has expired
 	switch typ {
 	case "string":
